@@ -144,7 +144,45 @@ def zone_offsets(f, zone, fold):
     return o, o0
 
 
+PYTZ_ZONES = ["US/Eastern", "Europe/London", "Australia/Lord_Howe", "America/St_Johns", "Pacific/Auckland", "Asia/Kolkata"]
+PYTZ_TIMES = {     # repeated hours and gaps of 2017 / 2021, plus ordinary winter and summer days
+    "US/Eastern": [[2017, 11, 5, 1, 50], [2017, 11, 5, 1, 10], [2017, 3, 12, 2, 30], [2021, 11, 7, 1, 30]],
+    "Europe/London": [[2017, 10, 29, 1, 30], [2017, 3, 26, 1, 30], [2021, 10, 31, 1, 59]],
+    "Australia/Lord_Howe": [[2017, 4, 2, 1, 45], [2017, 10, 1, 2, 15]],
+    "America/St_Johns": [[2017, 11, 5, 1, 30], [2017, 3, 12, 2, 30]],
+    "Pacific/Auckland": [[2017, 4, 2, 2, 30], [2017, 9, 24, 2, 30]],
+    "Asia/Kolkata": [[1945, 10, 14, 23, 30], [2017, 6, 1, 12, 0]],
+}
+
+
+def pytz_offset(f, zone, kind, is_dst):
+    """True UTC offset (microseconds) of the INPUT object, computed here with pytz itself before anything enters
+    the library: localize(is_dst=...) for a localized datetime, the zone's first offset for tzinfo= attachment."""
+    import pytz
+    z = pytz.timezone(zone)
+    d = z.localize(dt.datetime(*f), is_dst=is_dst) if kind == "pytzloc" else dt.datetime(*f, tzinfo=z)
+    return d.utcoffset() // dt.timedelta(microseconds=1)
+
+
+def pytz_input(rng):
+    zone = rng.choice(PYTZ_ZONES)
+    r = rng.random()
+    if r < 0.55:
+        y, m, d, hh, mm = rng.choice(PYTZ_TIMES[zone])
+        f = [y, m, d, hh, mm, rng.choice([0, 59, rng.randint(0, 59)]), rng.choice(MICROS + MICROS2)]
+    else:
+        f = gen_fields(rng)
+        f[0] = rng.choice([1950, 1987, 2007, 2017, 2021, 2024, 2037]) if rng.random() < 0.8 else rng.randint(1900, 2037)
+        f[2] = min(f[2], 28)
+        f[1] = rng.choice([1, 7, f[1]])
+    kind = "pytzloc" if rng.random() < 0.85 else "pytzattach"
+    is_dst = rng.random() < 0.5
+    return {"dt": f, "off": pytz_offset(f, zone, kind, is_dst), "tz": kind, "zone": zone, "is_dst": is_dst}
+
+
 def zone_input(rng):
+    if rng.random() < 0.4:
+        return pytz_input(rng)
     zone = rng.choice(ZONES)
     r = rng.random()
     if r < 0.45:
@@ -381,6 +419,17 @@ def boundary_grid():
             cases.append({"k": "fmt", "p": "any", "c": "exact", "in": inp})
             cases.append({"k": "parse", "p": "millisecond", "c": "min", "in": inp})
             cases.append({"k": "obj", "p": "millisecond", "c": "exact", "route": "v20.Identity.created", "in": inp})
+    # pytz zones: datetimes localized with is_dst True and False in repeated hours and gaps, and attached with tzinfo=
+    for zone in PYTZ_ZONES:
+        for y, m, d, hh, mm in PYTZ_TIMES[zone] + [[2017, 1, 15, 12, 0], [2017, 7, 15, 12, 0]]:
+            for kind, is_dst in (("pytzloc", True), ("pytzloc", False), ("pytzattach", False)):
+                f = [y, m, d, hh, mm, 0, 120000]
+                inp = {"dt": f, "off": pytz_offset(f, zone, kind, is_dst), "tz": kind, "zone": zone, "is_dst": is_dst}
+                cases.append({"k": "fmt", "p": "any", "c": "exact", "in": inp})
+                cases.append({"k": "parse", "p": "millisecond", "c": "min", "in": inp})
+                cases.append({"k": "prop", "p": "second", "c": "exact", "in": inp})
+                cases.append({"k": "obj", "p": "millisecond", "c": "exact", "route": "v20.Identity.created", "in": inp})
+                cases.append({"k": "obj", "p": "millisecond", "c": "min", "route": "v21.Identity.created", "via": "deepcopy", "in": inp})
     for how in VIAS:
         for p, c in PC:
             for off in (0, 19800000000, -18000000000):
